@@ -325,3 +325,13 @@ func isMessageLogTime(p *Program, v ssa.Value) bool {
 	}
 	return true
 }
+
+// iteratorAndQueueMethods: the methods of the index-based iterator and, when the pending queue has been given a type of
+// its own (roles().qType), the methods of that type.
+func iteratorAndQueueMethods(p *Program) []*ssa.Function {
+	out := methodsOf(p, pkgMcap, "indexedMessageIterator")
+	if qt := p.roles().qType; qt != "" && qt != "indexedMessageIterator" {
+		out = append(out, methodsOf(p, pkgMcap, qt)...)
+	}
+	return out
+}
